@@ -1481,3 +1481,15 @@ def source_siblings(check: Check, repo: Repo, rule: str = "SOURCE-SIBLINGS") -> 
         ok = got == want and bool(got)
         check.ob(rule, fn, f"{q}: key lookup for isinstance(source, {', '.join(got) or '?'})", ok,
                  "same class test as the sibling" if ok else f"sibling default_field_resolver tests {want}, this one {got}")
+    # a mapping is read by key only: attribute access happens on the not-a-Mapping side
+    fn = classes["default_field_resolver"][0]
+    p0 = fn.args.args[0].arg
+    flow = FactFlow(CFG(fn))
+    for c in walk_body(fn):
+        if isinstance(c, ast.Call) and call_name(c) == "getattr" and c.args and unparse(c.args[0]) == p0:
+            facts = flow.facts_at(c)
+            ok = any(f.kind == "cond" and not f.pol and unparse(f.expr).startswith(f"isinstance({p0},") for f in facts)
+            check.ob(rule, c, f"default_field_resolver: {unparse(c)} only for non-mappings", ok,
+                     "evaluated under `not isinstance(source, Mapping)`" if ok else
+                     "attribute lookup can run for a Mapping source: a dict without the key answers with its own methods "
+                     "(`items`, `keys`, `copy` ...), which are then called as resolvers")
